@@ -48,7 +48,7 @@ def run_case(case, part):
         r = np.exp(a - a.max())
         return [drv.u_for(case["ucodes"][i], r[j]) for j, i in enumerate(ids)]
 
-    run = drv.call_sampler("rejection", N, lls, case["path"], o, plan, perm=case.get("perm"), pool_spec=case.get("pool"))
+    run = drv.call_sampler("rejection", N, lls, case["path"], o, plan, perm=case.get("perm"), pool_spec=case.get("pool"), lib_dtype=case.get("dtype"))
     want_ids = [i for i in exp["acc"] for _ in range(nlin)]
     outcome = None
     if run.exc is not None:
@@ -170,6 +170,9 @@ def build_cases(quick):
         llv[N // 3] = 0.5  # the unique maximum (positive)
         uc = ["a" if i % 3 else "r" for i in range(N)]
         inmem.append(dict(kind="rej", N=N, ll_values=llv, ucodes=uc, path="inmem", opts=dict(max_posterior_samples=None, n_linear_samples=1)))
+        if N == 20000:
+            # the same library stored in single precision
+            inmem.append(dict(kind="rej", N=N, ll_values=llv, ucodes=uc, path="inmem", dtype="float32", opts=dict(max_posterior_samples=None, n_linear_samples=1)))
         for nb in nbs:
             for perm in (None, [(i * 7 + 3) % N for i in range(N)] if N % 7 else None):
                 if N > 1000 and perm is not None:
